@@ -264,6 +264,35 @@ def toldCheck (j : JState) : Option String :=
 
 def firstSome (l : List (Option String)) : Option String := l.findSome? id
 
+/-- C01 (locking read): a `lock` call that names its for-update ts (`fu=<sel>:<ts>`, HUB.md) and returns values or
+    existence returns the newest committed value at that ts — at the conflict ts for a key locked with conflict.
+    A key the transaction had locked before (`k=?`) returns nothing and is not judged. -/
+def lockReadCheck (st : Store) (args tail : List String) : Option String :=
+  match args.find? (·.startsWith "fu="), tail with
+  | some fuTok, ["ok", res] =>
+    match ((fuTok.splitOn ":").getD 1 "").toNat? with
+    | some fu =>
+      (splitList res).findSome? fun p =>
+        match p.splitOn "=" with
+        | [k, v] =>
+          let (v0, cts) := match v.splitOn "!" with
+            | [a, c] => (a, c.toNat?.getD 0)
+            | _ => (v, 0)
+          let ts := max fu cts
+          match hx k with
+          | some kb =>
+            let vis := (visible st kb ts).filter (!·.isEmpty)
+            let bad := if v0 == "?" then false
+              else if v0 == "+" then vis.isNone
+              else if v0 == "-" then vis.isSome
+              else optVal v0 != vis
+            if bad then some s!"C01 locking read of {k} at for-update ts {ts} returned {v0} but the newest committed value is {optBytes vis}"
+            else none
+          | none => none
+        | _ => none
+    | none => none
+  | _, _ => none
+
 def showKVs (l : List (Bytes × Bytes)) : String := showList (l.map fun (k, v) => s!"{hexOrTilde k}={hexOrTilde v}")
 
 /-- C05: a snapshot read through any access path (`snapget` / `snapbget` / `snapiter` / `snapriter`, HUB.md) returns what
@@ -438,7 +467,8 @@ def step (j : JState) (line : String) : JState × String :=
                 let absent (k : Bytes) : Bool := (tail.getD 1 "-").splitOn "," |>.any fun p => p == hexOrTilde k ++ "=~"
                 let _ := got
                 let locked := if onlyIfExists then ks.filter (fun k => !absent k) else ks
-                monEv { j1 with pessLocked := locked.map (fun k => (st, k)) ++ j1.pessLocked } [.bufLock p.client st locked] none
+                monEv { j1 with pessLocked := locked.map (fun k => (st, k)) ++ j1.pessLocked } [.bufLock p.client st locked]
+                  (lockReadCheck j1.store p.args tail)
               else (j1, "ok")
             | none => (j1, "ok")
           | "aggstart", _ => monEv j1 [.relaxLocks p.client st] none
@@ -494,6 +524,14 @@ def step (j : JState) (line : String) : JState × String :=
       let have_ := match j.mon.find st with | some t => t.beats | none => 0
       if have_ ≥ n then (j, "ok")
       else (j, s!"FAIL C04 rule6 transaction {st} was kept open over several heart-beat periods with a key locked but sent {have_} heart-beats")
+    | _, _ => (j, "MISMATCH malformed-event")
+  | ["audit", "held", st, ks] =>
+    -- C01: the client reports these keys as locked by its open transaction: the store must hold its lock on each
+    match st.toNat?, parseHexList ks with
+    | some st, some ks =>
+      match ks.find? fun k => !((getEntry j.store.kv k).lock.any (·.startTS == st)) with
+      | some k => (j, s!"FAIL C01 transaction {st} reports {hexOrTilde k} as locked but the store holds no lock of it there")
+      | none => (j, "ok")
     | _, _ => (j, "MISMATCH malformed-event")
   | ["audit", "nolocks", st] =>
     match st.toNat? with
